@@ -638,6 +638,23 @@ func (m *machine) scan(t *rapid.T, kv sorted.KeyValue, who, start, end string, l
 		if err := it.Close(); err != nil {
 			m.fail(t, "%s: Close returned %v", desc, err)
 		}
+		if limit < 0 {
+			// the package's own scan helper, as its callers use it: the strings handed to the callback are
+			// kept and looked at when the scan is over
+			type pair struct{ k, v string }
+			var got []pair
+			if err := sorted.ForeachInRange(kv, start, end, func(k, v string) error { got = append(got, pair{k, v}); return nil }); err != nil {
+				m.fail(t, "sorted.ForeachInRange over %s returned %v", desc, err)
+			}
+			if len(got) != len(want) {
+				m.fail(t, "sorted.ForeachInRange over %s yielded %d pairs, want %d", desc, len(got), len(want))
+			}
+			for j, p := range got {
+				if p.k != want[j] || p.v != m.model[p.k] {
+					m.fail(t, "sorted.ForeachInRange over %s: pair %d, kept until the scan was over, reads %s=%s; want %s=%s", desc, j, show(p.k), show(p.v), show(want[j]), show(m.model[want[j]]))
+				}
+			}
+		}
 		if closeTwice {
 			it.Close() // "It is valid to call Close multiple times": must not panic or wedge; its result is unspecified
 		}
